@@ -47,14 +47,16 @@ def plain(spec, n):
     return random.Random(seed).randbytes(k) + (bytes([fill]) * (n - k) if fill >= 0 else pat_bytes(seed, k, n - k))
 
 
-def _mk_plain(rng, n, hl):
-    """choose a plaintext so that header+deflated size is <512 / 501..512 / just over 512 / several sectors"""
-    cls = rng.choice(["tiny", "pat", "edge", "edge", "over", "multi"])
+def _mk_plain(rng, n, hl, cls=None, gs=None):
+    """choose a plaintext so that header+deflated size is <512 / 501..512 / just over 512 / several sectors;
+    cls "full" (needs gs): the record fills exactly gs sectors, i.e. (gs-1)*512 < header+deflated <= gs*512 — what a packing
+    stream writer produces for hardly compressible data: the next record then starts exactly one grain size further"""
+    cls = cls or rng.choice(["tiny", "pat", "edge", "edge", "over", "multi"])
     seed, fill, k = rng.randrange(1 << 16), (-1 if cls == "pat" else rng.randrange(256)), 0
     if cls == "multi":
         k = min(n, rng.randrange(1100, 3000))
-    elif cls in ("edge", "over"):
-        lo, hi = (501, 512) if cls == "edge" else (513, 540)
+    elif cls in ("edge", "over", "full"):
+        lo, hi = (501, 512) if cls == "edge" else (513, 540) if cls == "over" else ((gs - 1) * SEC + 1 + rng.choice([0, 0, 200, 480]), gs * SEC)
         k = max(0, min(n, lo - hl - 16))
         for _ in range(60):
             c = hl + len(zlib.compress(plain([seed, k, fill], n)))
@@ -99,8 +101,12 @@ def embedded_descriptor(cap, cid):
             "RW %d SPARSE \"self.vmdk\"\n\n# The Disk Data Base\n#DDB\n\nddb.virtualHWVersion = \"4\"\nddb.adapterType = \"ide\"\n" % (cid, cap))
 
 
-def gen_extent(rng, tier, kind=None, capacity=None, huge=None):
-    """huge: None = occasionally, False = never, "cap" = only a huge capacity (file stays small), True = huge capacity and/or far placement"""
+def gen_extent(rng, tier, kind=None, capacity=None, huge=None, gs=None, order=None):
+    """huge: None = occasionally, False = never, "cap" = only a huge capacity (file stays small), True = huge capacity and/or far placement
+    gs: force the grain size (sectors).  order: force the physical order of the stored grains of a hosted / COWD extent
+    ("seq", "rev", "shuf", "ident"; stream-optimised: "stride" = records on a grain-size raster, "packed" = sequential records some of
+    which fill exactly one grain size); a forced order is laid out tight (no gaps, tables not mixed between the grains), so that
+    logically consecutive grains end up exactly one grain size apart and get_runs merges them into one run."""
     kind = kind or rng.choice(KINDS)
     if huge is None:
         huge = rng.random() < (0.15 if tier == "thorough" else 0.1)
@@ -112,7 +118,8 @@ def gen_extent(rng, tier, kind=None, capacity=None, huge=None):
     ses, cowd, comp = kind == "sesparse", kind == "cowd", kind == "kdmv_stream"
     hcap = bool(huge) and (huge == "cap" or rng.random() < 0.7)
     hfar = huge is True and (not hcap or rng.random() < 0.6)
-    gs = rng.choice([1, 8, 8, 16, 16, 128, 128] + ([2048] if tier == "thorough" and not comp else []))
+    gs0, gs = gs, rng.choice([1, 8, 8, 16, 16, 128, 128] + ([2048] if tier == "thorough" and not comp else []))
+    gs = gs0 or gs
     gt_secs = rng.choice([1, 2, 64])
     gte = 4096 if cowd else 64 * gt_secs if ses else rng.choice([512, 512, 512, 1, 7, 96, 4096])
     if hcap or (capacity is not None and capacity // (gs * gte) > 1 << 16):      # keep the grain directory below ~1 MiB
@@ -165,6 +172,8 @@ def gen_extent(rng, tier, kind=None, capacity=None, huge=None):
         gd_secs = _ceil(ngt, 64) + rng.choice([0, 0, 1])
         tix, info["gt_order"] = _perm(rng, len(gts), rng.choice([0, 0, 0, 0, 0xFFFF, 0x10000]))   # table index beyond 16 bits
         cl, info["order"] = _perm(rng, len(alloc), rng.choice([0, 0, 0, 4095, 4090, 0x12345] + ([(1 << 24) + 0xABC, (1 << 36) + 0xFFE] if hfar else [])))
+        if order == "seq":                       # forced: clusters in grain order, so that neighbours are merged into one run
+            cl = [min(cl, default=0) + i for i in range(len(alloc))]
         cof = dict(zip(alloc, cl))
         info["far"] = far
         regs = [("gd", gd_secs), ("gt", (max(tix, default=0) + 1) * gt_secs), ("gr", (max(cl, default=0) + 1) * gs)]
@@ -180,15 +189,30 @@ def gen_extent(rng, tier, kind=None, capacity=None, huge=None):
     lba = rng.random() < 0.7
     hl = 12 if lba else 4
     rec, plains, clens = {}, {}, {}
+    tight = order is not None
+    order = order or rng.choice(["seq", "seq", "rev", "shuf", "stride" if comp else "ident"])
+    if comp and not tight and rng.random() < 0.3:
+        order = rng.choice(["stride", "packed"])
+    full = set()
+    if order == "packed":
+        # a few chains of logically consecutive grains whose records fill exactly gs sectors (bounded: such a grain is gs*512
+        # bytes of hardly compressible data in the image); the grain after a chain starts one grain size further as well
+        pairs = [i for i in range(len(alloc) - 1) if alloc[i + 1] == alloc[i] + 1]
+        for _ in range(3 if pairs else 0):
+            i = rng.choice(pairs)
+            for j in range(i, i + rng.choice([1, 1, 2, 3])):
+                if j + 1 < len(alloc) and alloc[j + 1] == alloc[j] + 1 and len(full) < (8 if gs >= 128 else 24):
+                    full.add(alloc[j])
+                else:
+                    break
     short_last = comp and cap % gs and rng.random() < 0.5
     for g in alloc:
         if comp:
             n = (cap - g * gs) * SEC if (short_last and g == G - 1) else gsz
-            plains[g], clens[g] = _mk_plain(rng, n, hl)
+            plains[g], clens[g] = _mk_plain(rng, n, hl, "full" if (g in full and n == gsz) else None, gs)
             rec[g] = _ceil(hl + clens[g], SEC)
         else:
             rec[g] = gs
-    order = rng.choice(["seq", "seq", "rev", "shuf", "stride" if comp else "ident"])
     data = [(f"g{g}", rec[g]) for g in alloc]
     meta = [(f"t{t}", _ceil(gte * 4, SEC)) for t in gts]
     if order == "rev":
@@ -201,6 +225,8 @@ def gen_extent(rng, tier, kind=None, capacity=None, huge=None):
     elif order == "ident" and alloc and (alloc[-1] - alloc[0] + 1) * gs <= 1 << 14:
         data = [("ident", (alloc[-1] - alloc[0] + 1) * gs)]     # sector = base + grain*grain_size: unallocated holes between runs
     arr = rng.choice(["meta_first", "meta_last", "inter", "mixed"])
+    if order == "packed" or tight:
+        gap_p, arr = 0, ("inter" if arr == "mixed" else arr)
     if arr == "inter" and "ident" not in dict(data):         # each table next to its grains (stream-optimised style)
         items = []
         for k, n in meta:
@@ -412,12 +438,50 @@ def hot_queries(r, limit=4):
             d = max(SEC, gsz // 2 // SEC * SEC)
             if p + gsz <= cap:
                 out.append([p - d, d + min(gsz, 16384)])
+    return out[:limit] + run_queries(r)
+
+
+def merged_chains(r):
+    """[first, last] grain of every maximal chain of logically consecutive allocated grains that are stored exactly one grain size
+    apart (get_runs merges such grains into ONE run; a stream-optimised extent then has to inflate them one by one)"""
+    if r["kind"] == "flat":
+        return []
+    step = 1 if r["kind"] == "sesparse" else r["gs"]             # SE-sparse entries are cluster numbers
+    loc = {int(g): v for g, v in r["grains"].items() if not isinstance(v, str)}
+    chains = []
+    for g in sorted(loc):
+        if g - 1 in loc and loc[g] - loc[g - 1] == step:
+            if chains and chains[-1][1] == g - 1:
+                chains[-1][1] = g
+            else:
+                chains.append([g - 1, g])
+    return chains
+
+
+def run_queries(r, limit=6):
+    """requests over a merged run that begin inside its first grain and end inside a later one (neither on a grain boundary, also
+    after the stream has aligned them to any buffer size up to half a grain): next grain / last grain of the chain, from the
+    middle of a grain and from one sector into it to one sector before the end"""
+    gs = r.get("gs", 1)
+    if gs < 2:
+        return []
+    gsz, cap, per = gs * SEC, r["cap"] * SEC, []
+    h, q = gs // 2 * SEC, max(1, gs // 4) * SEC
+    for a, b in merged_chains(r):
+        qs = [[a * gsz + h, gsz], [a * gsz + SEC, (b - a) * gsz + gsz - 2 * SEC], [a * gsz + h + q + 1, (b - a) * gsz - h + SEC]]
+        if b > a + 1:
+            qs.insert(1, [a * gsz + h, (b - a) * gsz])
+        per.append([[o, min(n, cap - o)] for o, n in qs if o < cap])
+    out = []
+    for i in range(4):                                           # round robin over the chains
+        out += [c[i] for c in per if i < len(c)]
     return out[:limit]
 
 
 # ------------------------------------------------------------------------------------------ multi-extent disks
 
-def gen_disk(rng, tier, allow_known=False):
+def gen_disk(rng, tier, allow_known=False, kinds=None):
+    """kinds: restrict the extent kinds (default: all of KINDS)"""
     mode = "handles" if rng.random() < 0.3 else "descriptor"
     n = rng.choice([1, 1, 2, 2, 3, 3, 4, 5, 8])
     stem = rng.choice(["disk", "disk", "my disk", "dïsk üñí", "ディスク", "a.b  c'#=x", "RW 5 FLAT", " lead",
@@ -425,7 +489,7 @@ def gen_disk(rng, tier, allow_known=False):
     exts = []
     info = {"has_unmapped_extent_kind": False, "has_flat_start_sector": False}
     for i in range(n):
-        kind = rng.choice(KINDS)
+        kind = rng.choice(kinds or KINDS)
         hg = (rng.random() < 0.06) if mode == "handles" else ("cap" if rng.random() < 0.05 else False)
         rec = gen_extent(rng, tier, kind, huge=hg)
         typ = DESC_TYPE.get(kind) or rng.choice(["FLAT", "VMFS"])
@@ -488,8 +552,9 @@ def extent_line(e):
 def render_descriptor(r):
     d = r["desc"]
     q = lambda k, v: f'{k}{d["eq"]}"{v}"'   # noqa: E731
-    lines = ["# Disk DescriptorFile", "version=1"] + [q(k, v) for k, v in d["extra_attr"]] + [f'CID{d["eq"]}{d["cid"]}', f'parentCID{d["eq"]}ffffffff',
-             q("createType", d["createType"]), "", "# Extent description"] + [d["indent"] + extent_line(e) for e in r["extents"]] + \
+    hint = [q("parentFileNameHint", d["parent_hint"])] if d.get("parent_hint") is not None else []
+    lines = ["# Disk DescriptorFile", "version=1"] + [q(k, v) for k, v in d["extra_attr"]] + [f'CID{d["eq"]}{d["cid"]}', f'parentCID{d["eq"]}{d.get("parent_cid", "ffffffff")}',
+             q("createType", d["createType"])] + hint + ["", "# Extent description"] + [d["indent"] + extent_line(e) for e in r["extents"]] + \
             ["", "# The Disk Data Base", "#DDB", ""] + [d["indent"] + f'{k} = "{v}"' for k, v in d["ddb"]]
     return d["eol"].join(lines) + (d["eol"] if d["final_eol"] else "")
 
@@ -521,7 +586,8 @@ class DiskTruth:
             self.extent_lines = [{"access_mode": e["access"], "sectors": e["sectors"], "type": e["type"], "filename": e["name"],
                                   "start_sector": e["start"], "partition_uuid": (e["opt"] + [None, None])[0],
                                   "device_identifier": (e["opt"] + [None, None])[1]} for e in r["extents"]]
-            self.attr = dict([["version", "1"]] + d["extra_attr"] + [["CID", d["cid"]], ["parentCID", "ffffffff"], ["createType", d["createType"]]])
+            self.attr = dict([["version", "1"]] + d["extra_attr"] + [["CID", d["cid"]], ["parentCID", d.get("parent_cid", "ffffffff")], ["createType", d["createType"]]] +
+                             ([["parentFileNameHint", d["parent_hint"]]] if d.get("parent_hint") is not None else []))
             self.ddb = dict(d["ddb"])
 
     def read(self, off, n):
@@ -537,6 +603,109 @@ class DiskTruth:
         for base, size, t in self.ext:
             pts |= {base, base + size} | ({base + p for p in extent_points(t.r)} if t else set())
         return sorted(pts)
+
+
+# ------------------------------------------------------------------------------------------ delta disks (descriptor + parent)
+
+DELTA_KINDS = ["kdmv", "kdmv", "kdmv_footer", "cowd", "sesparse", "kdmv_stream"]
+HINTS = {"same": "{}", "sibling": "../basedir/{}", "winpath": "C:\\vms\\basedir\\{}", "missing": "nowhere/absent-{}"}
+
+
+def gen_delta(rng, tier, n=None, where=None, base_kinds=None):
+    """a delta disk over a parent disk: the parent is a descriptor disk of gen_disk (any extent kinds, so its content depends on
+    the position), the child a descriptor with a parent CID / parentFileNameHint naming n >= 1 sparse extents (each with its own
+    kind, grain size, tables, allocation map) whose capacities add up to the parent's capacity; the cuts between the child's
+    extents are unrelated to the grain sizes and to the parent's extent boundaries (or, sometimes, exactly on one of those).
+    where: the parent lies in the child's directory / a sibling directory named by the hint / behind a Windows path / nowhere."""
+    while True:
+        base = gen_disk(rng, tier, kinds=base_kinds)
+        # the hint is a descriptor *value*: values lose leading / trailing blanks and quotes
+        nm = base["desc"]["name"] if base["mode"] == "descriptor" else ""
+        if base["mode"] == "descriptor" and 0 < sum(e["sectors"] for e in base["extents"]) < (1 << 22) and nm == nm.strip(' "'):
+            break
+    cap = sum(e["sectors"] for e in base["extents"])
+    n = min(n or rng.choice([1, 1, 2, 2, 3, 4]), cap)
+    cuts = set()
+    bounds = [b for b in _prefix([e["sectors"] for e in base["extents"]]) if 0 < b < cap]
+    while len(cuts) < n - 1:
+        c = rng.choice(bounds) if bounds and rng.random() < 0.2 else rng.randrange(1, cap)
+        cuts.add(c if rng.random() < 0.6 else min(cap - 1, max(1, c // 128 * 128)))
+    edges = [0] + sorted(cuts) + [cap]
+    exts = []
+    for i in range(n):
+        kind = rng.choice(DELTA_KINDS)
+        rec = gen_extent(rng, tier, kind=kind, capacity=edges[i + 1] - edges[i], huge=False)
+        exts.append({"rec": rec, "sectors": rec["cap"], "name": f"child-s{i + 1:03d}.vmdk", "access": "RW", "type": DESC_TYPE[kind], "start": None, "opt": []})
+    where = where or rng.choice(["same", "same", "sibling", "winpath", "missing"])
+    desc = {"name": "child.vmdk", "cid": "%08x" % rng.getrandbits(32), "parent_cid": base["desc"]["cid"], "parent_hint": HINTS[where].format(nm),
+            "createType": rng.choice(["twoGbMaxExtentSparse", "vmfsSparse", "seSparse", "custom"]), "ddb": [], "eol": "\n", "eq": "=", "indent": "",
+            "extra_attr": [], "final_eol": True}
+    return {"base": base, "where": where, "child": {"mode": "descriptor", "extents": exts, "desc": desc, "named": True, "open_as": "path", "info": {}}}
+
+
+def _prefix(xs):
+    out, a = [], 0
+    for x in xs:
+        a += x
+        out.append(a)
+    return out
+
+
+class DeltaTruth:
+    """.base (DiskTruth of the parent), .child (DiskTruth of the child read on its own), .size, .read: a grain the child's extent
+    does not hold (unallocated / SE-sparse fall-through) shows the parent's bytes at the same ABSOLUTE disk position"""
+
+    def __init__(self, r):
+        self.r, self.base, self.child = r, DiskTruth(r["base"]), DiskTruth(r["child"])
+        self.size = self.child.size
+
+    def read(self, off, n):
+        out, end = [], off + n
+        for ebase, esize, t in self.child.ext:
+            a, b = max(off, ebase), min(end, ebase + esize)
+            gsz, grains = t.r["gs"] * SEC, t.r["grains"]
+            while a < b:
+                g, ino = divmod(a - ebase, gsz)
+                k = min(gsz - ino, b - a)
+                v = grains.get(str(g))
+                if v is None or v == "f":
+                    out.append((self.base.read(a, k) + bytes(k))[:k])      # below a shorter parent: zeros
+                elif v == "z":
+                    out.append(bytes(k))
+                else:
+                    out.append(t.read(a - ebase, k))
+                a += k
+        return b"".join(out)
+
+    def points(self):
+        return sorted(set(self.child.points()) | {p for p in self.base.points() if p <= self.size})
+
+    def hot_queries(self, limit=6):
+        """requests at grains that an extent OTHER than the first one does not hold (the parent is asked at extent start + offset),
+        alone and together with the end of the previous extent"""
+        out = []
+        for ebase, esize, t in self.child.ext[1:]:
+            gsz, grains = t.r["gs"] * SEC, t.r["grains"]
+            ng = _ceil(esize, gsz)
+            free = [g for g in (range(ng) if ng <= 4096 else [0, 1, 2, ng - 2, ng - 1]) if grains.get(str(g)) in (None, "f")]
+            for g in free[:1] + free[-1:]:
+                a = ebase + g * gsz
+                out.append([a, min(gsz, ebase + esize - a)])
+                out.append([max(0, a - 3 * SEC), min(3 * SEC + gsz // 2 + 1, self.size - max(0, a - 3 * SEC))])
+        return out[:limit]
+
+    def write(self, d):
+        """child in <d>/childdir, parent next to it or in <d>/basedir (or nowhere); returns the child descriptor's path"""
+        cdir = os.path.join(d, "childdir")
+        os.makedirs(cdir)
+        bdir = cdir if self.r["where"] in ("same", "missing") else os.path.join(d, "basedir")
+        os.makedirs(bdir, exist_ok=True)
+        if self.r["where"] != "missing":
+            for name, im in self.base.files.items():
+                im.write_to(os.path.join(bdir, name))
+        for name, im in self.child.files.items():
+            im.write_to(os.path.join(cdir, name))
+        return os.path.join(cdir, self.child.descriptor_name)
 
 
 # ------------------------------------------------------------------------------------------ real code
@@ -632,7 +801,11 @@ def selftest(n=300, seed=0, tier="quick", allow_known=False, verbose=False):
     stats, fails, t0 = {}, [], time.time()
     for i in range(n):
         disk = i % 3 == 2
-        if disk:
+        delta = i % 12 == 11
+        if delta:
+            r = gen_delta(rng, tier, where=rng.choice(["same", "sibling", "winpath"]))
+            tag = "delta/%d" % min(len(r["child"]["extents"]), 3)
+        elif disk:
             r = gen_disk(rng, tier, allow_known)
             tag = "disk/" + r["mode"]
         else:
@@ -644,7 +817,13 @@ def selftest(n=300, seed=0, tier="quick", allow_known=False, verbose=False):
         bad = []
         signal.alarm(60)
         try:
-            if disk:
+            if delta:
+                t = DeltaTruth(r)
+                with tempfile.TemporaryDirectory(prefix="gen_vmdk.") as tmp:
+                    s = _VMDK()(Path(t.write(tmp)))
+                    bad = compare_reads(s, t, gen_queries(qrng, t.size, t.points(), 14) + t.hot_queries())
+                    del s
+            elif disk:
                 t = DiskTruth(r)
                 with tempfile.TemporaryDirectory(prefix="gen_vmdk.") as tmp:
                     s = open_impl(t, tmp)
@@ -665,7 +844,7 @@ def selftest(n=300, seed=0, tier="quick", allow_known=False, verbose=False):
             signal.alarm(0)
         st = stats.setdefault(tag, [0, 0])
         st[0] += 1
-        known = disk and any(r["info"].values())
+        known = disk and not delta and any(r["info"].values())
         if bad:
             st[1] += 1
             fails.append((i, tag, known))
